@@ -13,7 +13,7 @@ from .common import rng_for, crash_sig, chunks, fmt_outcome, norm_log
 RULE = ("sequential histories: one root context (list, string, bytes, map, int variables whose buffers the driver "
         "tracks through weak handles, optionally also holding its own Arc) and up to 50 executions of generated programs "
         "favouring x + [..], [..] + x, s + s, macros over x, literals embedding x, programs returning x, regex matches "
-        "with literal patterns, failing programs and deep programs, and histories that select / test / index 36-47 distinct field, key and variable names before returning to the first ones; after every execution: context snapshot unchanged, "
+        "with literal patterns, failing programs (incl. literals with several failing or logging entries), temporaries of equal byte length but different character counts measured back to back, deep programs, and histories that select / test / index 36-47 distinct field, key and variable names before returning to the first ones; after every execution: context snapshot unchanged, "
         "buffer identity, reference counts conserved, every earlier result unchanged, program Debug unchanged, and the "
         "result equal to the same program run against the same context again, against a freshly built equal context, "
         "and alone in a fresh thread (solo baseline). Concurrent histories: a shared program set and root context "
@@ -41,6 +41,15 @@ TEMPLATES = [
     "t(1, x) + t(2, [n])", "x.map(e, t(e, e + 1))", "t(0, s) + t(1, s)", "size(x + x)", "x.contains(n)", "string(n) + s",
     "y", "[y, y]", "size(y)", "string(y) + s", "bytes(s) == y", "m.map(k, k + s).all(e, e.contains(s))", "m.all(k, m[k] >= 0 || true)",
     "x + [n] == x + [n]", "x == x", "(x + [1]).size() == x.size() + 1", "has(m.a) ? m.a : n", "m.exists(k, k == s)",
+    # several failing / logging operands in one literal or call: which one wins must not vary between executions
+    "{0: 10 / 0, 1: 11 / 0, 2: 12 / 0, 3: 13 / 0, 4: 14 / 0, 5: 15 / 0, 6: 16 / 0, 7: 17 / 0}", "{'a': x + 1, 'b': 1 % 0, 'c': 's' - 1, 'd': nosuch}",
+    "[10 / 0, 11 % 0, nosuch, 's' - 1]", "{0: t(0, 1), 1: t(1, 2), 2: t(2, 3), 3: t(3, 4), 4: t(4, 5)}", "{t(0, 'a'): 1, t(1, 'b'): 2, t(2, 'c'): 3}.size()",
+    "{1 / 0: 1, 2 % 0: 2, nosuch: 3}", "[t(1, 1), t(2, 2), t(3, 3)].map(e, {e: t(e + 10, e), e + 100: t(e + 20, e)}).size()",
+    # temporaries of equal byte length and different character counts measured one after the other
+    "size('aaaaaaaaaaaaaaaaaaaa')", "size('éééééééééé')", "size('日日日日日日aa')", "size('𝄞𝄞𝄞𝄞𝄞')", "size('aaaaaaaaaaaaaaaaaaaa') + size('éééééééééé')",
+    "size('abcdefghij-' + 'abcdefghijk')", "size('abcdefghij-' + 'àbçdéfgh')", "['abcdefghijk', 'àbçdéfgh', 'abçdefghij', '日本語ab'].map(e, size('abcdefghij-' + e))",
+    "['aaaaaaaaaaaaaaaa', 'éééééééé', 'aaaaaaaaaaaaaaaa', '𝄞𝄞𝄞𝄞'].map(e, size(e + e))", "size(s + 'abcdefghijklmnop') + size('àbçdéfghijkl' + s)",
+    "string(bytes('éééééééééé')).size() + string(bytes('aaaaaaaaaaaaaaaaaaaa')).size()",
 ]
 
 
